@@ -17,7 +17,7 @@ git reset -q
 go build ./... || { echo "BUILD FAILS"; exit 5; }
 if go test -count=1 ./... >/tmp/confirm-tests.log 2>&1; then echo "existing tests: PASS with patch"; else echo "existing tests: FAIL with patch"; tail -20 /tmp/confirm-tests.log; exit 6; fi
 cp "$M/demo_test.go" "$PKG/verif_demo_test.go"
-if go test -count=1 -run 'VerifDemo' "./$PKG" >/tmp/confirm-demo1.log 2>&1; then echo "demo: PASSES with patch (bad)"; R1=pass; else echo "demo: fails with patch (good)"; R1=fail; fi
+if go test -count=1 -run 'VerifDemo|TestDemo' "./$PKG" >/tmp/confirm-demo1.log 2>&1; then echo "demo: PASSES with patch (bad)"; R1=pass; else echo "demo: fails with patch (good)"; R1=fail; fi
 git diff > /tmp/confirm-$$.diff; git apply -R /tmp/confirm-$$.diff; rm -f /tmp/confirm-$$.diff
-if go test -count=1 -run 'VerifDemo' "./$PKG" >/tmp/confirm-demo2.log 2>&1; then echo "demo: passes without patch (good)"; R2=pass; else echo "demo: FAILS without patch (bad)"; tail -15 /tmp/confirm-demo2.log; R2=fail; fi
+if go test -count=1 -run 'VerifDemo|TestDemo' "./$PKG" >/tmp/confirm-demo2.log 2>&1; then echo "demo: passes without patch (good)"; R2=pass; else echo "demo: FAILS without patch (bad)"; tail -15 /tmp/confirm-demo2.log; R2=fail; fi
 [ $R1 = fail ] && [ $R2 = pass ] && echo CONFIRMED || echo NOT-CONFIRMED
